@@ -43,7 +43,7 @@ pub fn format_env_opt(env: &Option<Vec<(OsString, OsString)>>, Tracked(w): Track
 // argv.iter().map(|p| p.as_ref().to_owned()).collect()
 #[verifier::external_body]
 pub fn to_os_vec(argv: &[OsString]) -> (r: Vec<OsString>)
-    ensures r@.len() == argv@.len(), posix::bytes_of(r@) == posix::bytes_of(argv@)
+    ensures r@.len() == argv@.len(), posix::bytes_of(r@) == posix::bytes_of(argv@), forall|i: int| 0 <= i < argv@.len() ==> (#[trigger] r@[i]).b@ == argv@[i].b@
 { unimplemented!() }
 // the parent (or the child) closes a descriptor it owns by dropping the File
 #[verifier::external_body]
